@@ -120,7 +120,8 @@ impl SlidingLogState {
             let time_until_slot = oldest
                 .checked_add(self.window_duration)
                 .map(|expiry| expiry.saturating_duration_since(now))
-                .unwrap_or(Duration::ZERO);
+                // the expiry instant is not representable: the entry never expires
+                .unwrap_or(Duration::MAX);
 
             if time_until_slot > self.timeout_duration {
                 Err(self.timeout_duration)
@@ -136,6 +137,12 @@ impl SlidingLogState {
     fn available_permits(&self) -> usize {
         self.limit_for_period.saturating_sub(self.request_log.len())
     }
+}
+
+/// `Duration::from_secs_f64` that saturates instead of panicking when the value does not fit
+/// (refresh periods close to `Duration::MAX`).
+fn duration_from_secs_f64(secs: f64) -> Duration {
+    Duration::try_from_secs_f64(secs).unwrap_or(Duration::MAX)
 }
 
 /// Sliding window counter rate limiter state.
@@ -234,7 +241,7 @@ impl SlidingCounterState {
         if previous == 0.0 {
             // No previous bucket contribution, need to wait for bucket rotation
             let remaining = self.bucket_duration.as_secs_f64() * (1.0 - current_ratio);
-            return Duration::from_secs_f64(remaining);
+            return duration_from_secs_f64(remaining);
         }
 
         // weighted = previous * (1 - ratio) + current = limit - epsilon
@@ -249,10 +256,10 @@ impl SlidingCounterState {
         } else if target_ratio >= 1.0 {
             // Need to wait for bucket rotation
             let remaining = self.bucket_duration.as_secs_f64() * (1.0 - current_ratio);
-            Duration::from_secs_f64(remaining)
+            duration_from_secs_f64(remaining)
         } else {
             let wait_ratio = target_ratio - current_ratio;
-            Duration::from_secs_f64(wait_ratio * self.bucket_duration.as_secs_f64())
+            duration_from_secs_f64(wait_ratio * self.bucket_duration.as_secs_f64())
         }
     }
 
